@@ -330,38 +330,45 @@ theorem abandon_while_sending_keeps_capacity {n data : Nat} {w : World} (hn : 0 
     exact hfree _ (getH_some ht1).1 (by simp [e]))]
   exact ht1
 
-/-- **retry_while_sending**: the deadline expires with retries left while a `SendableFrame` for the
-    slot is outstanding (`Sending`): the poll makes the slot `Sendable` again (plain store) and stays
-    pending; the stale send, when it completes with any outcome, cannot mark the slot `Sent` (its
-    compare-exchange from `Sending` fails): the slot stays `Sendable` and will be claimed and
-    transmitted again by the TX side. -/
+/-- **retry_while_sending** (current code, fix b5bf0e20): the deadline expires with retries left while
+    the slot is not waiting for its response — the TX side still holds the frame (`Sending`), or it
+    is still queued (`Sendable`), or a response is being copied (`RxBusy`). The poll consumes one
+    retry, re-arms the timer and stays pending, but its `Sent → Sendable` compare-exchange fails:
+    NO slot changes. In particular a frame in `Sending` keeps its one `SendableFrame`, whose send then
+    completes normally (`Sent` on a complete send, `Sendable` otherwise): no second claim of the
+    same slot can arise from a retry. -/
 theorem retry_while_sending {n data : Nat} {w : World} (hn : 0 < n) (hr : Reach n data w)
-    (r t k ρ D T o : Nat) (hf : getH w.2 r = some ⟨r, k, .fut (ρ + 1) D T true⟩) (hD : D ≤ w.1.now)
-    (hsending : (w.1.slot k).st = .sending) (ht : getH w.2 t = some ⟨t, k, .sendable⟩) :
+    (r k ρ D T : Nat) (hf : getH w.2 r = some ⟨r, k, .fut (ρ + 1) D T true⟩) (hD : D ≤ w.1.now)
+    (hst : (w.1.slot k).st = .sendable ∨ (w.1.slot k).st = .sending ∨ (w.1.slot k).st = .rxBusy) :
     let w1 := (step w (.poll r)).1
-    (step w (.poll r)).2 = "pending" ∧ (w1.1.slot k).st = .sendable ∧
+    (step w (.poll r)).2 = "pending" ∧ w1.1 = w.1 ∧
     getH w1.2 r = some ⟨r, k, .fut ρ (w.1.now + T) T true⟩ ∧
-    ((step w1 (.txSend t o)).1.1.slot k).st = .sendable := by
+    (∀ t o, (w.1.slot k).st = .sending → getH w.2 t = some ⟨t, k, .sendable⟩ →
+      ((step w1 (.txSend t o)).1.1.slot k).st = (if o = 0 then St.sent else St.sendable)) := by
   intro w1
   have hJ := J_reach hn hr
   have hk : k < w.1.n := hJ.owner_lt (getH_some hf).1 (by simp [HK.cls])
-  have hrt : r ≠ t := by intro e; subst e; rw [hf] at ht; cases ht
+  have hns : (w.1.slot k).st ≠ .sent := by rcases hst with h | h | h <;> rw [h] <;> simp
   rcases poll_cases hJ hf with ⟨h, _⟩ | ⟨_, h, _⟩ | ⟨_, _, h, _⟩ | ⟨_, _, _, h⟩
-  · rw [hsending] at h; cases h
+  · rcases hst with h' | h' | h' <;> rw [h'] at h <;> cases h
   · exact absurd ⟨rfl, hD⟩ h
   · cases h
-  · have hs1 : (w1.1.slot k).st = .sendable := by
-      show ((step w (.poll r)).1.1.slot k).st = _
-      rw [h]; simp only; rw [slot_setSlot_eq _ _ _ hk]
+  · rw [if_neg hns] at h
+    have hs1 : w1.1 = w.1 := by show (step w (.poll r)).1.1 = _; rw [h]
     have hg : getH w1.2 r = some ⟨r, k, .fut ρ (w.1.now + T) T true⟩ := by
       show getH (step w (.poll r)).1.2 r = _
       rw [h]; exact getH_putH_self hJ.regs _
+    refine ⟨by rw [h], hs1, hg, ?_⟩
+    intro t o hsending ht
+    have hrt : r ≠ t := by intro e; subst e; rw [hf] at ht; cases ht
     have ht1 : getH w1.2 t = some ⟨t, k, .sendable⟩ := by
       show getH (step w (.poll r)).1.2 t = _
       rw [h]; simp only
       rw [getH_putH_other hJ.regs _ (by simpa using hrt.symm)]; exact ht
-    refine ⟨by rw [h], hs1, hg, ?_⟩
-    simp [step, opTxSend, ht1, hs1]
+    have hs2 : (w1.1.slot k).st = .sending := by rw [hs1]; exact hsending
+    have hk1 : k < w1.1.n := by rw [hs1]; exact hk
+    simp only [step, opTxSend, ht1, hs2, if_true]
+    rw [slot_setSlot_eq _ _ _ hk1]
 
 /-! ### the transmit side keeps serving -/
 
@@ -417,28 +424,23 @@ example : (sends 0 demoW demoOps).length = 3 := by decide
 example : ((step (run demoW demoOps) (.poll 0)).1.1.slots.map (·.st)) = [.none, .created] := by decide
 example : Reach 2 40 demoW := ⟨0, 0, _, rfl⟩
 
-/-! The side condition of the transmission clause is needed, at API level already. If a deadline
-    expires (with retries left) while a `SendableFrame` for the slot is still outstanding, the TX
-    side can claim the slot a second time; when the first frame's send then completes and the
-    response arrives, the second frame's send puts the RESPONSE bytes on the wire: a retransmission
-    that is not byte-identical. (One TX task that sends each frame before claiming the next, as
-    `tx_rx_task` does, never holds two frames of one slot; the public API allows it.) The harness
-    reports such histories as `outside-assumption:retransmission-differs`. -/
-def cexResp : List Nat := ((frameBytes demoW 0).set 6 18).set 26 0x55
-
+/-! The side condition of the transmission-count clause is needed: if the TX side has NOT sent the
+    frame when a deadline expires, that retry is consumed without a retransmission (the `Sent →
+    Sendable` compare-exchange fails; see `retry_while_sending`), so the request times out after
+    fewer than `1 + R` transmissions. Here `R = 2`: the first deadline passes while the frame is still
+    `Sending`; two transmissions in all. -/
 def cexOps : List Op :=
-  [.poll 0, .txNext 1, .advance 10, .poll 0, .txNext 2, .txSend 1 0, .rx cexResp, .txSend 2 0]
+  [.poll 0, .txNext 1, .advance 10, .poll 0, .txSend 1 0, .advance 10, .poll 0,
+   .txNext 1, .txSend 1 0, .advance 10]
 
-theorem retransmission_needs_tx_discipline_counterexample :
-    (outs demoW cexOps).take 7 = ["pending", "some.0", "ok", "pending", "some.0",
-      "ok." ++ hexBytes (frameBytes demoW 0), "processed"] ∧
-    (sends 0 demoW cexOps).length = 2 ∧
-    (sends 0 demoW cexOps)[0]? = some (frameBytes demoW 0) ∧
-    (sends 0 demoW cexOps)[1]? ≠ some (frameBytes demoW 0) ∧
-    -- the history violates the side condition: the second poll finds the deadline expired while
-    -- the slot is `Sending`, not `Sent`
-    ¬ StepOk 0 0 (run demoW (cexOps.take 3)) (.poll 0) := by
-  refine ⟨by decide, by decide, by decide, by decide, ?_⟩
+theorem count_needs_tx_discipline_counterexample :
+    (outs demoW cexOps).take 4 = ["pending", "some.0", "ok", "pending"] ∧
+    -- the history violates the side condition at its second poll (expired while `Sending`) ...
+    ¬ StepOk 0 0 (run demoW (cexOps.take 3)) (.poll 0) ∧
+    -- ... and then the third expiry is the last: timeout after 2 < 1 + 2 transmissions
+    (step (run demoW cexOps) (.poll 0)).2 = "ready.err.timeout" ∧
+    (sends 0 demoW cexOps).length = 2 ∧ (∀ x ∈ sends 0 demoW cexOps, x = frameBytes demoW 0) := by
+  refine ⟨by decide, ?_, by decide, by decide, by decide⟩
   simp only [StepOk]
   decide
 
